@@ -105,6 +105,46 @@ namespace c09
             m.load(tail);
         }
     };
+    // a user type whose serialize / deserialize members are inherited from a (CRTP) base that frames every message with a
+    // version byte; the type also has reflect() (used by tooling): the explicit members must win, as for a type that declares
+    // them itself
+    template <class D> struct Framed
+    {
+        void serialize(igris::archive::binary_serializer_basic &m) const
+        {
+            m.dump((uint8_t)0x5A);
+            static_cast<const D *>(this)->body_out(m);
+        }
+        void deserialize(igris::archive::binary_deserializer_basic &m)
+        {
+            uint8_t ver = 0;
+            m.load(ver);
+            static_cast<D *>(this)->body_in(m);
+            static_cast<D *>(this)->version_seen = ver;
+        }
+    };
+    struct M1 : Framed<M1>
+    {
+        int16_t code = 0;
+        std::string text;
+        uint8_t version_seen = 0x5A;
+        void body_out(igris::archive::binary_serializer_basic &m) const { m.dump(code); m.dump(std::string_view(text.data(), text.size())); }
+        void body_in(igris::archive::binary_deserializer_basic &m)
+        {
+            m.load(code);
+            igris::buffer b;
+            m.load_set_buffer(b);
+            text.assign(b.data(), b.size());
+        }
+        template <class R> void reflect(R &r) { r & code; r & text; }
+    };
+    template <> struct Ref<M1>
+    {
+        static M1 gen(kit::Rng &r, GenCfg &c) { M1 m; m.code = Ref<int16_t>::gen(r, c); m.text = Ref<std::string>::gen(r, c); return m; }
+        static void enc(const M1 &v, std::string &o) { o.push_back((char)0x5A); Ref<int16_t>::enc(v.code, o); Ref<std::string>::enc(v.text, o); }
+        static bool eq(const M1 &a, const M1 &b) { return a.code == b.code && a.text == b.text && a.version_seen == 0x5A && b.version_seen == 0x5A; }
+        static bool is_container() { return true; }
+    };
     template <> struct Ref<B3>
     {
         static B3 gen(kit::Rng &r, GenCfg &c)
@@ -373,6 +413,8 @@ namespace c09
         T1(std::vector<B3>, 2, true);
         T1(B4, 1, false);
         T1(long double, 0, false);
+        T1(M1, 1, false);
+        T1(std::vector<M1>, 2, true);
 #undef T1
         return a;
     }
